@@ -59,3 +59,49 @@ pub fn disp_term(t: &Unifiable) -> (r: String)
 pub fn str_append(out: &mut String, s: &String)
     ensures final(out)@ == old(out)@ + s@,
 { unimplemented!() /* *out += s; */ }
+
+// ---- format_solution (C01: "each formatted as `$Var = value` for the query's variables in argument order") ----------
+pub open spec fn any_var(q: Seq<Unifiable>, a: int, b: int) -> bool {
+    exists|j: int| a <= j < b && (#[trigger] q[j]) is LogicVar
+}
+pub open spec fn fmt_upto(q: Seq<Unifiable>, r: Seq<Unifiable>, k: int) -> Seq<char>
+    decreases k,
+{
+    if k <= 1 { Seq::empty() }
+    else {
+        let prev = fmt_upto(q, r, k - 1);
+        match q[k - 1] {
+            Unifiable::LogicVar{id, name} =>
+                (if any_var(q, 1, k - 1) { prev + ", "@ } else { prev }) + name@ + " = "@ + disp(r[k - 1]),
+            _ => prev,
+        }
+    }
+}
+// R10 targets for `out += &format!("{} = {}", name, r_terms[i]);` and `out += &format!(", {} = {}", name, r_terms[i]);`
+#[verifier::external_body]
+pub fn str_append_binding(out: &mut String, name: &String, t: &Unifiable, comma: bool)
+    ensures final(out)@ == (if comma { old(out)@ + ", "@ } else { old(out)@ }) + name@ + " = "@ + disp(*t),
+{ unimplemented!() }
+pub open spec fn fmt_is(query: Goal, result: Unifiable, text: Seq<char>) -> bool {
+    match query {
+        Goal::ComplexGoal(Unifiable::SComplex(q)) => match result {
+            Unifiable::SComplex(r) => text == fmt_upto(q@, r@, if q@.len() >= 1 { q@.len() as int } else { 1 }),
+            _ => text.len() == 0,
+        },
+        _ => text.len() == 0,
+    }
+}
+pub proof fn lemma_any_var_step(q: Seq<Unifiable>, a: int, b: int)
+    requires a <= b,
+    ensures any_var(q, a, b + 1) == (any_var(q, a, b) || q[b] is LogicVar),
+{
+    if any_var(q, a, b + 1) {
+        let j = choose|j: int| a <= j < b + 1 && (#[trigger] q[j]) is LogicVar;
+        if j < b { assert(any_var(q, a, b)); }
+    }
+    if any_var(q, a, b) {
+        let j = choose|j: int| a <= j < b && (#[trigger] q[j]) is LogicVar;
+        assert(a <= j < b + 1 && q[j] is LogicVar);
+    }
+    if q[b] is LogicVar { assert(a <= b < b + 1 && q[b] is LogicVar); }
+}
